@@ -581,6 +581,7 @@ def judge_hist(ctx, idx, case, recs, tamper=None):
 
 def judge_value(ctx, idx, case, rec, tamper=None):
     import torch
+    torch.set_num_threads(1)
     from msdm.algorithms.fscgradientascent import stochastic_fsc_policy_evaluation_exact as evaluate
     m, rep = case["m"], case["rep"]
     R = Reporter(ctx, "value", case)
@@ -753,7 +754,7 @@ def run_steps_cap(m, want):
     return cap
 
 
-def record_episodes(ctx, cases, rng, per_case, tamper=None):
+def record_episodes(ctx, cases, rng, per_case, tamper=None, fixed=None):
     """Returns (data for C09_Run, meta list aligned with eps)."""
     from msdm.core.pomdp.finitestatecontroller import StochasticFiniteStateController as SFSC
     insts, eps, meta = [], [], []
@@ -772,13 +773,16 @@ def record_episodes(ctx, cases, rng, per_case, tamper=None):
         insts.append(m)
         iid = len(insts)
         for j in range(per_case):
-            ms = run_steps_cap(m, rng.choice([0, 1, 2, 3, 4, 6, 6]))
-            given = rng.random() < 0.6
-            seed = rng.randrange(2 ** 30)
-            s0 = None
-            if given:
-                cands = W.listed if rng.random() < 0.3 else [s for s in W.listed if m["p0"][s] > 0]
-                s0 = rng.choice(cands)
+            if fixed is not None:        # --replay: the stored configuration (same seed -> same episode on unchanged code)
+                ms, given, s0, seed = fixed["maxsteps"], bool(fixed["given"]), fixed["s0"], fixed["seed"]
+            else:
+                ms = run_steps_cap(m, rng.choice([0, 1, 2, 3, 4, 6, 6]))
+                given = rng.random() < 0.6
+                seed = rng.randrange(2 ** 30)
+                s0 = None
+                if given:
+                    cands = W.listed if rng.random() < 0.3 else [s for s in W.listed if m["p0"][s] > 0]
+                    s0 = rng.choice(cands)
             cfg = {"maxsteps": ms, "given": int(given), "s0": s0, "seed": seed}
             ctx.evaluations += 1
             random.seed(seed)        # run_on draws the initial state from the global generator when none is given
@@ -812,8 +816,8 @@ def record_episodes(ctx, cases, rng, per_case, tamper=None):
     return {"insts": insts, "eps": eps}, meta
 
 
-def judge_run(ctx, cases, rng, per_case, tamper=None, mutate_data=None):
-    data, meta = record_episodes(ctx, cases, rng, per_case, tamper=tamper)
+def judge_run(ctx, cases, rng, per_case, tamper=None, mutate_data=None, fixed=None):
+    data, meta = record_episodes(ctx, cases, rng, per_case, tamper=tamper, fixed=fixed)
     if mutate_data is not None:
         mutate_data(data)
     if not data["eps"]:
@@ -868,27 +872,28 @@ def q(x, scale=SV):
 def learner_configs(rng, n, tier):
     out = []
     for i in range(n):
-        if i % 5 in (0, 1, 2):
+        if i % 3 != 2:
             kind = "bpi"
             its = rng.choice([0, 1, 2, 3, 4, 6] if tier == "quick" else [0, 1, 2, 3, 6, 10, 15])
-            fn = "cvxpy" if i % 20 == 5 else "scipy"
+            fn = "cvxpy" if i % 30 == 4 else "scipy"
         else:
             kind = "ga"
             its = rng.choice([0, 1, 3, 10, 25] if tier == "quick" else [0, 1, 5, 30, 100, 200])
             fn = None
-        out.append({"kind": kind, "iterations": its, "size": rng.choice([1, 2, 2, 3]), "seed": rng.choice([0, 1, 7, 42, rng.randrange(1, 10 ** 6)]),
+        out.append({"kind": kind, "iterations": its, "size": rng.choice([1, 2, 2, 3]),
+                    "seed": rng.choice([0, 1, 7, 42, rng.randrange(1, 10 ** 6), rng.randrange(1, 10 ** 6)]),
                     "lr": rng.choice([0.1, 0.1, 0.5]), "fn": fn})
     return out
 
 
-def make_learner_case(rng):
-    n_na = rng.choice([1, 2, 2, 3])
+def make_learner_case(rng, ghost_p=0.2):
+    n_na = rng.choice([1, 2, 2, 2, 3])
     n_abs = rng.choice([0, 1, 1, 2])
     if n_na + n_abs < 2:
         n_na = 2
-    ghost = rng.random() < 0.2
+    ghost = rng.random() < ghost_p
     GN, GD = rng.choice([(1, 2), (3, 4), (9, 10)])
-    m = pb.rand_pomdp(rng, n_na=n_na, n_abs=n_abs, K=rng.choice([1, 2, 2, 3]), NO=rng.choice([1, 2, 2, 3]),
+    m = pb.rand_pomdp(rng, n_na=n_na, n_abs=n_abs, K=rng.choice([1, 2, 2, 2, 3, 3]), NO=rng.choice([1, 2, 2, 2, 3]),
                       PD=rng.choice([2, 4]), OD=rng.choice([2, 4]), GN=GN, GD=GD, ghost=ghost, ID=rng.choice([2, 4]),
                       obs_kind=rng.choice(["random"] * 6 + ["single", "identity"]), init_on_abs=0.15)
     rep = dict(labels=rng.choice(LABELS), alabels=rng.choice(LABELS), olabels=rng.choice(LABELS),
@@ -902,6 +907,7 @@ def make_learner_case(rng):
 def run_learner(ctx, case, cfg, tamper=None):
     """Run one learner; returns (trace record for C09_Learn, info) or None if it raised (reported)."""
     import torch
+    torch.set_num_threads(1)         # tiny tensors: thread fan-out only costs time on a shared machine
     from msdm.algorithms import fscboundedpolicyiteration as bpi
     from msdm.algorithms.fscgradientascent import FSCGradientAscent
     m = case["m"]
@@ -929,7 +935,7 @@ def run_learner(ctx, case, cfg, tamper=None):
             torch.manual_seed(cfg["seed"] + 12345)      # seed=0 falls back to torch's global generator (C13's clause)
             res = FSCGradientAscent(controller_state_count=cfg["size"], iterations=cfg["iterations"],
                                     learning_rate=cfg["lr"], seed=cfg["seed"]).train_on(W.p)
-            rep_value = float(res.value.expected_value)
+            rep_value = float(to_np(res.value.expected_value))
             rtab = to_np(res.value.state_controller_value)
         pol = res.policy
         A, E, I = to_np(pol.action_strategy), to_np(pol.observation_strategy), to_np(pol.initial_state_dist)
@@ -1060,17 +1066,17 @@ def run(ctx):
         "bounded policy iteration's per-iteration tables are observed through the public improve_node_fn parameter (table at the start of each iteration)",
         "gradient ascent's optimiser trajectory is not judged (only its outputs)",
     ]
-    n_both, n_value = (70, 150) if quick else (260, 700)
-    cases = make_cases(rng, n_both, ctx.tier, "hist", ctx) + make_cases(rng, n_value, ctx.tier, "value", ctx)
-    chunk = 120 if quick else 160
+    n_hist, n_value = (110, 260) if quick else (400, 1500)
+    cases = make_cases(rng, n_hist, ctx.tier, "hist", ctx) + make_cases(rng, n_value, ctx.tier, "value", ctx)
+    chunk = 200 if quick else 250
     for k in range(0, len(cases), chunk):
         judge_fsc_cases(ctx, cases[k:k + chunk])
     hist_cases = [c for c in cases if "hist" in c["m"]["machs"]]
-    judge_run(ctx, hist_cases[: (60 if quick else 250)], rng, per_case=4 if quick else 8)
-    n_learn = 70 if quick else 500
+    judge_run(ctx, hist_cases[: (110 if quick else 400)], rng, per_case=4 if quick else 8)
+    n_learn = 210 if quick else 1500
     cfgs = learner_configs(rng, n_learn, ctx.tier)
     jobs = [(make_learner_case(rng), cfg) for cfg in cfgs]
-    step = 100
+    step = 250
     for k in range(0, len(jobs), step):
         judge_learners(ctx, jobs[k:k + step])
 
@@ -1083,38 +1089,11 @@ def replay(ctx, case):
         c["m"]["machs"] = [kind]
         judge_fsc_cases(ctx, [c], xcheck_every=1)
     elif kind == "run":
-        # the same configuration again (same seed -> the same episode if the code is unchanged)
-        cfg = case["cfg"]
-
-        class _One(random.Random):
-            pass
-        judge_run_fixed(ctx, c, cfg)
+        judge_run(ctx, [c], None, per_case=1, fixed=case["cfg"])
     elif kind == "learn":
         judge_learners(ctx, [(c, case["cfg"])])
     else:
         raise TLCFailure(f"unknown replay kind {kind}")
-
-
-def judge_run_fixed(ctx, case, cfg):
-    """Replay of one run_on configuration."""
-    class _Fixed:
-        def __init__(self):
-            self.k = 0
-
-        def choice(self, seq):
-            # order of draws in record_episodes: maxsteps, (candidates, s0)
-            self.k += 1
-            if self.k == 1:
-                return cfg["maxsteps"]
-            return cfg["s0"] if cfg["s0"] in seq else seq[0]
-
-        def random(self):
-            # first draw decides `given`, second the candidate set (irrelevant: s0 is forced)
-            return 0.0 if cfg["given"] else 1.0
-
-        def randrange(self, n):
-            return cfg["seed"]
-    judge_run(ctx, [case], _Fixed(), per_case=1)
 
 
 def selftest(ctx):
